@@ -57,7 +57,7 @@ for t in thetas:
             print('EXCEPTION', type(e).__name__, e, 'theta', t, 'axis', axis, 'vec', v); bad += 1; continue
         exp = rodrigues(t, axis, v)
         scale = 1.0 + max(abs(x) for x in v)
-        if max(abs(g-e) for g, e in zip(got, exp)) > 1e-9*scale:
+        if max(abs(g-e) for g, e in zip(got, exp)) > %(tol)r*scale:
             print('MISMATCH theta', t, 'axis', axis, 'vec', v, 'got', got, 'expected', exp); bad += 1
 print('violations:', bad)
 sys.exit(1 if bad else 0)
@@ -73,7 +73,7 @@ def replay_builder(model):
         vec = [1.0, 1.0, 0.3]
     th = mval(model, 'theta', 0.7)
     thetas = [th if abs(th) < 50 else 0.7, 0.7, -2.1, 1.3]
-    return REPLAY % {'axis': axis, 'vec': vec, 'thetas': thetas}
+    return REPLAY % {'axis': axis, 'vec': vec, 'thetas': thetas, 'tol': 1e-9}
 
 
 def pure_lemmas():
@@ -230,13 +230,28 @@ def bounded(pr):
                         axes.append((sx * mag[0], sy * mag[1], sz * mag[2]))
     for _ in range(n_rand):
         axes.append(tuple(rng.uniform(-10, 10) for _ in range(3)))
+    # axes ALMOST along a coordinate axis (the tilt angles of the alignment round to 0 or pi in floating point while the in-plane
+    # angle is of full size); compared with the looser tolerance 1e-6 because acos is ill-conditioned there
+    near = []
+    for main in range(3):
+        for sgn in (1.0, -1.0):
+            for eps in (1e-6, 1e-9, 1e-12):
+                for da, db in ((1.0, 0.0), (0.0, 1.0), (-0.8, 0.6), (0.6, -0.8)):
+                    a = [0.0, 0.0, 0.0]
+                    a[main] = sgn * (1.0 if eps != 1e-9 else 4.0)
+                    a[(main + 1) % 3] = da * eps
+                    a[(main + 2) % 3] = db * eps
+                    near.append(tuple(a))
+    n_regular = len(axes)
+    axes += near
     thetas = [0.0, 0.7, -2.1, math.pi / 2, math.pi, -math.pi, 3 * math.pi, 2 * math.pi, 3.9, -0.001]
     vecs = [(1.0, 1.0, 0.3), (-0.7, 0.4, 1.9), (0.0, 0.0, 1.0), (2.0, 0.0, 0.0)]
     ev = 0
     viol = []
     fams = set()
-    for a in axes:
-        fams.add(tuple((x > 0) - (x < 0) for x in a))
+    for ia, a in enumerate(axes):
+        tol = 1e-9 if ia < n_regular else 1e-6
+        fams.add(tuple((x > 0) - (x < 0) for x in a) + (ia >= n_regular,))
         nrm = math.sqrt(sum(x * x for x in a))
         k = [x / nrm for x in a]
         for t in thetas:
@@ -251,10 +266,10 @@ def bounded(pr):
                 kxv = (k[1] * v[2] - k[2] * v[1], k[2] * v[0] - k[0] * v[2], k[0] * v[1] - k[1] * v[0])
                 kd = sum(x * y for x, y in zip(k, v))
                 exp = [v[i] * c + kxv[i] * s + k[i] * kd * (1 - c) for i in range(3)]
-                if got is None or max(abs(g - e) for g, e in zip(got, exp)) > 1e-9 * (1 + max(abs(x) for x in v)):
+                if got is None or max(abs(g - e) for g, e in zip(got, exp)) > tol * (1 + max(abs(x) for x in v)):
                     if len(viol) < 3:
                         viol.append({'what': 'rotate_vector_around_an_axis(%r, %r, %r) = %r, Rodrigues = %r' % (t, a, v, got, exp),
-                                     'replay': REPLAY % {'axis': list(a), 'vec': list(v), 'thetas': [t]}})
+                                     'replay': REPLAY % {'axis': list(a), 'vec': list(v), 'thetas': [t], 'tol': tol}})
     # one axis / vector object re-used and changed in place between calls (callers such as protonate.py keep Vector objects)
     ax_obj, v_obj = va.Vector(0, 0, 1), va.Vector(1, 0, 0)
     for a in axes[:60]:
